@@ -121,6 +121,10 @@ func (cx *Ctx) typed(tv TV, t types.Type) TV {
 	if tv.K != nil {
 		it := intTOf(t)
 		if it == nil {
+			if isFloat64(t) {
+				f, _ := new(big.Float).SetInt(tv.K).Float64()
+				return TV{V: sv(f64Lit(f)), T: t}
+			}
 			if b, ok := t.Underlying().(*types.Basic); ok && b.Info()&types.IsFloat != 0 {
 				return TV{V: sv(cx.ex.floatConst(tv.K.String())), T: t}
 			}
@@ -297,6 +301,8 @@ func (cx *Ctx) eval(e CExpr) TV {
 			return TV{K: x.Int}
 		case x.Bool != nil:
 			return TV{B: x.Bool}
+		case x.Flt != nil:
+			return TV{V: sv(f64Lit(*x.Flt)), T: types.Typ[types.Float64]}
 		default:
 			return TV{S: x.Str}
 		}
@@ -384,6 +390,24 @@ func (cx *Ctx) eval(e CExpr) TV {
 	case *CCall:
 		return cx.call(x)
 	case *CUnary:
+		if x.Op == "&" {
+			// address of a slice element
+			ix, ok := x.X.(*CIndex)
+			if !ok {
+				cx.fail("& is supported on slice elements only: %s", e)
+			}
+			b := cx.eval(ix.X)
+			st, isSl := b.T.Underlying().(*types.Slice)
+			if !isSl {
+				cx.fail("& is supported on slice elements only: %s", e)
+			}
+			i := cx.typed(cx.eval(ix.I), tInt)
+			it := intTOf(i.T)
+			if it == nil {
+				cx.fail("non-integer index in %s", e)
+			}
+			return TV{V: sv(ex.elemAddr(b.V, ar.conv(*it, idxT, i.V.T))), T: types.NewPointer(st.Elem())}
+		}
 		v := cx.eval(x.X)
 		switch x.Op {
 		case "!":
@@ -521,6 +545,16 @@ func (cx *Ctx) convert(v TV, t types.Type) TV {
 	switch {
 	case lf.Int != nil && lt.Int != nil:
 		return TV{V: sv(ex.ar.conv(*lf.Int, *lt.Int, v.V.T)), T: t}
+	case lf.Int != nil && isFloat64(t):
+		if r, ok := ex.ar.f64FromInt(*lf.Int, v.V.T); ok {
+			return TV{V: sv(r), T: t}
+		}
+		cx.fail("int -> float64 conversion needs the bit-vector encoding (drop `mode int`)")
+	case lt.Int != nil && isFloat64(v.T):
+		if r, ok := ex.ar.f64ToInt(*lt.Int, v.V.T); ok {
+			return TV{V: sv(r), T: t}
+		}
+		cx.fail("float64 -> int conversion needs the bit-vector encoding (drop `mode int`)")
 	case lf.Kind == lt.Kind:
 		return TV{V: v.V, T: t}
 	}
@@ -551,6 +585,13 @@ func (cx *Ctx) binary(x *CBinary) TV {
 	bconst := func(b bool) TV { return TV{B: &b} }
 	switch x.Op {
 	case "&&", "||", "==>":
+		// defined(x) && e / defined(x) ==> e: e is not evaluated where x does not exist
+		if c, ok := x.X.(*CCall); ok && c.Fun == "defined" && x.Op != "||" {
+			if !cx.isDefined(c) {
+				return bconst(x.Op == "==>")
+			}
+			return cx.eval(x.Y)
+		}
 		// polarity: the right side of ==> and both sides of && keep goal mode
 		var a string
 		if x.Op == "==>" {
@@ -678,7 +719,11 @@ func (cx *Ctx) binary(x *CBinary) TV {
 				c = ex.eqVal(l, a.V, b.V) // same slice header (ghost equality)
 			}
 		default:
-			c = ex.eqVal(l, a.V, b.V)
+			if l.Sort == SF64 && isFloat64(a.T) {
+				c = f64Bin("==", a.V.T, b.V.T)
+			} else {
+				c = ex.eqVal(l, a.V, b.V)
+			}
 		}
 		if x.Op == "!=" {
 			c = not(c)
@@ -687,6 +732,17 @@ func (cx *Ctx) binary(x *CBinary) TV {
 	}
 	if l.Sort == SBool {
 		cx.fail("operator %s on booleans in %s", x.Op, x)
+	}
+	if l.Sort == SF64 && isFloat64(a.T) {
+		t := f64Bin(x.Op, a.V.T, b.V.T)
+		if t == "" {
+			cx.fail("operator %s on float64 in %s", x.Op, x)
+		}
+		switch x.Op {
+		case "<", "<=", ">", ">=":
+			return TV{V: sv(t), T: tBool}
+		}
+		return TV{V: sv(t), T: a.T}
 	}
 	it := l.Int
 	if it == nil {
@@ -822,9 +878,96 @@ func (cx *Ctx) call(x *CCall) TV {
 			ctr = cx.old.ctr
 		}
 		return TV{V: sv("(>= (rid " + base + ") " + ctr + ")"), T: tBool}
+	case "disjoint":
+		// the two slices (or a slice and a pointer) live in different allocations
+		if len(x.Args) != 2 {
+			cx.fail("disjoint takes two arguments")
+		}
+		base := func(e CExpr) string {
+			v := cx.eval(e)
+			if v.V == nil {
+				cx.fail("disjoint: %s has no address", e)
+			}
+			if v.V.C != nil {
+				return v.V.C[0].T
+			}
+			return v.V.T
+		}
+		return TV{V: sv(not(eq("(root "+base(x.Args[0])+")", "(root "+base(x.Args[1])+")"))), T: tBool}
 	case "sameSlice":
 		a, b := cx.eval(x.Args[0]), cx.eval(x.Args[1])
 		return TV{V: sv(ex.eqVal(ex.ls.of(a.T), a.V, b.V)), T: tBool}
+	case "callarg":
+		// callarg(f, i): the i-th argument (receiver first) of the latest call to f in this execution
+		id, ok := ghostFnName(x.Args[0])
+		if len(x.Args) != 2 || !ok {
+			cx.fail("callarg takes a function name and an argument index")
+		}
+		iv := cx.eval(x.Args[1])
+		if iv.K == nil {
+			cx.fail("callarg: constant argument index expected")
+		}
+		i := int(iv.K.Int64())
+		ls := ex.callArgLayout[id.Name]
+		if i < 0 || i >= len(ls) {
+			cx.fail("callarg(%s, %d): no such argument recorded in this function", id.Name, i)
+		}
+		st := cx.state()
+		k := 0
+		v := ex.ls.zip(ls[i], []*Val{ex.freshVal(ls[i], "nocall")}, func(srt Sort, ts []string) string {
+			t := ts[0]
+			if g, has := st.ghost[fmt.Sprintf("callarg:%s:%d:%d|%s", id.Name, i, k, srt)]; has {
+				t = g
+			}
+			k++
+			return t
+		})
+		return TV{V: v, T: ls[i].T}
+	case "called", "callresult":
+		// ghost call log of this execution: was f called / the result of its latest call
+		id, ok := ghostFnName(x.Args[0])
+		if len(x.Args) != 1 || !ok {
+			cx.fail("%s takes a function name", x.Fun)
+		}
+		st := cx.state()
+		if x.Fun == "called" {
+			g := st.ghost["called:"+id.Name]
+			if g == "" {
+				g = "false"
+			}
+			return TV{V: sv(g), T: tBool}
+		}
+		rl := ex.callResLayout[id.Name]
+		if rl == nil {
+			cx.fail("callresult(%s): no call to %s with a used result in this function", id.Name, id.Name)
+		}
+		k := 0
+		v := ex.ls.zip(rl, []*Val{ex.freshVal(rl, "nocall")}, func(srt Sort, ts []string) string {
+			t := ts[0]
+			if g, has := st.ghost[fmt.Sprintf("callres:%s:%d|%s", id.Name, k, srt)]; has {
+				t = g
+			}
+			k++
+			return t
+		})
+		return TV{V: v, T: rl.T}
+	case "defined":
+		d := cx.isDefined(x)
+		return TV{B: &d}
+	case "strings.HasPrefix":
+		// literal prefixes only: exact pointwise expansion
+		v := cx.eval(x.Args[0])
+		lit, ok := x.Args[1].(*CLit)
+		if !ok || lit.Str == nil || ex.ls.of(v.T).Kind != LString {
+			panic(fmt.Errorf("contract: strings.HasPrefix needs a string and a literal prefix"))
+		}
+		pre := *lit.Str
+		cs := []string{ex.ar.cmp(">=", idxT, v.V.C[2].T, ex.idx(int64(len(pre))))}
+		for i := 0; i < len(pre); i++ {
+			bt := ex.loadLeaf(cx.state(), ex.s8Key(), ex.elemAddr(v.V, ex.idx(int64(i))), false)
+			cs = append(cs, eq(bt, ex.ar.litI(IntT{8, false}, int64(pre[i]))))
+		}
+		return TV{V: sv(and(cs...)), T: tBool}
 	case "isnil":
 		v := cx.eval(x.Args[0])
 		switch ex.ls.of(v.T).Kind {
@@ -894,7 +1037,7 @@ func basicTypeByName(n string) types.Type {
 	switch n {
 	case "byte":
 		return types.Typ[types.Uint8]
-	case "int", "int8", "int16", "int32", "int64", "uint", "uint8", "uint16", "uint32", "uint64", "uintptr", "bool":
+	case "int", "int8", "int16", "int32", "int64", "uint", "uint8", "uint16", "uint32", "uint64", "uintptr", "bool", "float64":
 		for _, b := range types.Typ {
 			if b.Name() == n {
 				return b
@@ -942,6 +1085,16 @@ func (fr *Frame) frameLookup(name string, st *State, override map[string]*Val) (
 		}
 	}
 	if e, ok := fr.resolveName(name); ok {
+		// a variable that lives in a memory cell (escaping local, captured variable): the reference found may
+		// be an older load of the cell; the variable's value in `st` is the cell's content there
+		if u, isLoad := e.v.(*ssa.UnOp); isLoad && !e.isAddr && u.Op == token.MUL {
+			switch u.X.(type) {
+			case *ssa.Alloc, *ssa.FreeVar:
+				if _, has := fr.vals[u.X]; has {
+					e = envEnt{u.X, true}
+				}
+			}
+		}
 		if e.isAddr {
 			pt := e.v.Type().Underlying().(*types.Pointer)
 			return fr.ex.load(st, fr.val(e.v).T, fr.ex.ls.of(pt.Elem()), fr.ex.P.addrHint(e.v), true), pt.Elem(), true
@@ -1055,3 +1208,41 @@ func (fr *Frame) loopCtx(li *loopInfo, next map[string]*Val, st *State, goal boo
 }
 
 var _ = token.NoPos
+
+// isDefined: defined(x) - does the identifier denote a value at this program
+// point (statically: a local that is visible here, a parameter, a result)?
+func (cx *Ctx) isDefined(c *CCall) (ok bool) {
+	if len(c.Args) != 1 {
+		cx.fail("defined takes one identifier")
+	}
+	id, isId := c.Args[0].(*CIdent)
+	if !isId {
+		cx.fail("defined takes one identifier")
+	}
+	defer func() {
+		if r := recover(); r != nil {
+			if e, isErr := r.(error); isErr && strings.Contains(e.Error(), "unknown identifier") {
+				ok = false
+				return
+			}
+			panic(r)
+		}
+	}()
+	sub := *cx
+	sub.goal = false
+	sub.eval(id)
+	return true
+}
+
+// ghostFnName: f, pkg.f or Type.f as written in called()/callresult()/callarg().
+func ghostFnName(e CExpr) (*CIdent, bool) {
+	switch x := e.(type) {
+	case *CIdent:
+		return x, true
+	case *CSel:
+		if id, ok := x.X.(*CIdent); ok {
+			return &CIdent{id.Name + "." + x.Name}, true
+		}
+	}
+	return nil, false
+}
